@@ -35,7 +35,7 @@ Is(e, want) == IF Panicked(e) THEN {"panic"} ELSE IF Norm2(e.out) # want THEN {"
 
 Judge(e) ==
   LET x == Norm2(e.x) IN
-  IF Has(e, "hang") THEN {"hang"}              \* the call did not return within the driver's watchdog (10 s)
+  IF Has(e, "hang") THEN {"hang"}              \* the call did not return within the driver's watchdog (60 s)
   ELSE
   CASE e.op = "Neg" -> Is(e, ENeg(x)) \cup Same(e)
     [] e.op = "Conjugate" -> Is(e, EConj(x)) \cup Same(e)
